@@ -13,6 +13,7 @@
 From Coq Require Import List ZArith NArith Bool Arith.
 Import ListNotations.
 Require Import Gram.Model.Token Gram.Model.Grammar Gram.Gen.ParserSkeleton Gram.Model.Parser Gram.Model.ParserPost Gram.Proofs.ParserProofs Gram.Proofs.PackratProofs Gram.Proofs.ScanProofs.
+Require Import Gram.Model.Term Gram.Model.DeBruijn Gram.Model.ParserPost Gram.Proofs.PostPassBounds.
 
 Theorem C17_miss_bound : forall toks, snd (fst (parse_stage1 toks true)) <= 36 * (length toks + 1).
 Proof. exact packrat_miss_bound. Qed.
@@ -59,3 +60,44 @@ Theorem C17_nested_example : Nat.leb (snd (fst (parse_stage1 nested12 true))) (3
 Proof. vm_compute. reflexivity. Qed.
 Check C17_nested_example : Nat.leb (snd (fst (parse_stage1 nested12 true))) (36 * (length nested12 + 1)) = true.
 Print Assumptions C17_nested_example.
+
+(* The passes that FOLLOW parsing inside parse() (Proofs/PostPassBounds.v), each by an instrumented copy that counts the
+   recursive calls and is proved to compute the same result: every re-association pass visits each node exactly once (the cost
+   of `reassoc` IS the size of the tree, for any accumulator), name resolution makes at most one call per node, and one walk of
+   the definition-order check expands every definition of the group at most once (a definition enters `visited` before it
+   is expanded and never leaves), with the fuel the model supplies always sufficient. The two seeded slow-downs of these
+   passes (an operand re-associated twice per level; `visited` un-marked on the way back) are exactly violations of these
+   bounds; on the implementation they are caught by the timing families. *)
+Theorem C17_reassociation_is_linear : forall t, fst (reassociate_c t) = reassociate t /\ snd (reassociate_c t) <= 3 * psize t.
+Proof. exact reassociate_cost_bound. Qed.
+Check C17_reassociation_is_linear : forall t, fst (reassociate_c t) = reassociate t /\ snd (reassociate_c t) <= 3 * psize t.
+Print Assumptions C17_reassociation_is_linear.
+
+Theorem C17_reassociation_pass_visits_each_node_once : forall t k acc, reassoc_c k acc t = (reassoc k acc t, psize t).
+Proof. exact reassoc_c_spec. Qed.
+Check C17_reassociation_pass_visits_each_node_once : forall t k acc, reassoc_c k acc t = (reassoc k acc t, psize t).
+Print Assumptions C17_reassociation_pass_visits_each_node_once.
+
+Theorem C17_resolution_is_linear : forall f t depth c s, fst (resolve_c f t depth c s) = resolve f t depth c s /\ snd (resolve_c f t depth c s) <= psize t.
+Proof. intros. split; [apply resolve_c_same | apply resolve_cost_bound]. Qed.
+Check C17_resolution_is_linear : forall f t depth c s, fst (resolve_c f t depth c s) = resolve f t depth c s /\ snd (resolve_c f t depth c s) <= psize t.
+Print Assumptions C17_resolution_is_linear.
+
+Theorem C17_definition_order_walk_expands_each_definition_once : forall ds start cur errs M,
+  Forall (fun p => length (sort_dedup (fvl (snd p) 0)) <= M) ds ->
+  let r := check_definition_cost ds start (S (length ds)) cur [] errs in
+  res4 r = check_definition (S (length ds)) ds start cur [] errs /\ calls4 r <= 1 + length ds /\ iters4 r <= M * (1 + length ds).
+Proof. exact check_definitions_walk_cost. Qed.
+Check C17_definition_order_walk_expands_each_definition_once : forall ds start cur errs M,
+  Forall (fun p => length (sort_dedup (fvl (snd p) 0)) <= M) ds ->
+  let r := check_definition_cost ds start (S (length ds)) cur [] errs in
+  res4 r = check_definition (S (length ds)) ds start cur [] errs /\ calls4 r <= 1 + length ds /\ iters4 r <= M * (1 + length ds).
+Print Assumptions C17_definition_order_walk_expands_each_definition_once.
+
+Theorem C17_definition_order_fuel_sufficient : forall ds start cur errs extra,
+  check_definition (S (length ds) + extra) ds start cur [] errs = check_definition (S (length ds)) ds start cur [] errs.
+Proof. exact check_definitions_fuel_sufficient. Qed.
+Check C17_definition_order_fuel_sufficient : forall ds start cur errs extra,
+  check_definition (S (length ds) + extra) ds start cur [] errs = check_definition (S (length ds)) ds start cur [] errs.
+Print Assumptions C17_definition_order_fuel_sufficient.
+
